@@ -7,6 +7,7 @@ use std::sync::atomic::{AtomicI64, Ordering};
 mod util;
 mod s_dhcpwire;
 mod s_pool;
+mod s_dhcp;
 
 /// Virtual wall clock: when >= 0, every CLOCK_REALTIME read in this process (Rust std and C
 /// libraries alike) returns this many seconds. The symbol overrides libc's at static link time.
@@ -48,6 +49,7 @@ fn run_case(line: &str) -> String {
         "frame" => s_dhcpwire::frame(args),
         "bflag" => s_dhcpwire::bflag(args),
         "pool" => s_pool::history(args),
+        "dhcp" => s_dhcp::history(args),
         _ => format!("bad-suite:{}", suite),
     }));
     match r {
